@@ -315,6 +315,7 @@ class StubsLib(StubsBase):
             "take": Stub(lambda c, a, index, axis=None: self.np_take(c, a, index, axis), "np.take"),
             "stack": Stub(lambda c, arrs, axis=0: self.np_stack(c, arrs, axis), "np.stack"),
             "concatenate": Stub(lambda c, arrs, axis=0: self.np_concatenate(c, arrs, axis), "np.concatenate"),
+            "broadcast_to": Stub(lambda c, a, shape, **k: A.broadcast_to(c, a if isinstance(a, SArr) else self.np_array(c, a), shape), "np.broadcast_to"),
             "flip": Stub(lambda c, a, axis=None: A.flip(c, a, axis), "np.flip"),
             "sqrt": Stub(self.np_sqrt, "np.sqrt"),
             "exp": Stub(self.np_exp, "np.exp"),
